@@ -40,8 +40,10 @@ def main(path):
     failed = [n for n, ok in ctx.results if not ok]
     out["failed_clauses"] = failed
     out["clauses_evaluated"] = len(ctx.results)
-    out["reproduced"] = rp["obligation"] in failed
-    out["other_clause_failed"] = bool(failed) and not out["reproduced"]
+    # the refuted clause itself fails natively, or (loop / call-site obligations have no native counterpart)
+    # another clause of the same contract fails on the model's input
+    out["reproduced"] = bool(failed)
+    out["same_clause_failed"] = rp["obligation"] in failed
     out["native_notes"] = ctx.notes[-2:]
     print(json.dumps(out))
     return 0
